@@ -280,7 +280,10 @@ func (f *function) evaluate() (data string, changed bool, err error) {
 	}
 	b64.Close()
 
+	// The target has run in this environment: remember it both decoded and encoded, for later
+	// runs on the same loaded project.
 	f.oldEnv = f.newEnv
+	f.targetInfo.Data = buf.String()
 	return buf.String(), true, nil
 }
 
